@@ -1045,7 +1045,8 @@ Proof.
   assert (Hasc : is_ascii (name ++ 0 :: (d1 ++ 46 :: d2 ++ 46 :: d3 ++ labels) ++ [0]) = true).
   { rewrite is_ascii_app, ascii_text_is_ascii by assumption. cbn [andb].
     change (0 :: (d1 ++ 46 :: d2 ++ 46 :: d3 ++ labels) ++ [0]) with ([0] ++ (d1 ++ 46 :: d2 ++ 46 :: d3 ++ labels) ++ [0]).
-    rewrite !is_ascii_app, (ascii_text_is_ascii _ Htxt). reflexivity. }
+    rewrite (is_ascii_app [0] _). rewrite (is_ascii_app (d1 ++ 46 :: d2 ++ 46 :: d3 ++ labels) [0]).
+    rewrite (ascii_text_is_ascii _ Htxt). reflexivity. }
   rewrite Hasc. change (sver_is_legacy 65535) with false. cbv iota.
   rewrite partition0_text by assumption. rewrite rstrip0_text_nul by assumption.
   rewrite match_version_ok by assumption. rewrite rstrip0_text by assumption. reflexivity.
